@@ -77,6 +77,8 @@ def keys_for(kind, form, private):
     from joserfc.jwk import KeySet
     jwk = scen.key(kind)
     k = A.jkey(jwk, "dict", private=(private or jwk["kty"] == "oct"))
+    if form == "set1":
+        return KeySet([k]), rjwk.thumbprint(rjwk.public_of(jwk))
     if form == "key":
         return k, None
     other = A.jkey(scen.key(kind, 1), "dict", private=(private or jwk["kty"] == "oct"))
@@ -90,7 +92,7 @@ def keys_for(kind, form, private):
 def h_roundtrip(ctx):
     from joserfc import jwt, jwe
     family, alg, kind = ctx.choose("transport", TRANSPORTS)
-    kform = ctx.choose("key_form", ["key", "set", "callable"])
+    kform = ctx.choose("key_form", ["key", "set", "callable", "set1"])
     hdr_kind = ctx.choose("header", ["plain", "typ-explicit", "typ-JWT", "extra-members"])
     what_claims = ctx.choose("claims_kind", ["json", "datetime"])
     if what_claims == "json":
